@@ -309,6 +309,15 @@ class _CalleeApply:
             res_builder, reqs, enss, assumed = cc.result, cc.requires, cc.ensures, cc.assumed
         for label, fn in reqs:
             ctx.oblige(st, f"pre.{fv.qualname}.{label}", fn(a))
+        # exceptional exits the callee's contract allows (its own `raises` clause is verified against its body):
+        # a nondeterministic choice at the call site, so that the caller's handlers are explored
+        may_raise = cc.options.get("may_raise", ()) if isinstance(cc, Contract) else getattr(cc, "may_raise", ())
+        for exc in may_raise:
+            if interp.explorer is None:
+                raise Unsupported("callee that may raise outside exploration")
+            ctx.by_contract[self.tgt] = {"assumed": assumed, "note": getattr(cc, "note", "")}
+            if interp.explorer.decide(T.Fresh.bool("raises_" + exc)):
+                raise PyRaise(ExcVal(exc, ()))
         res = res_builder(MkCall(st), raw)
         r = wrap(ctx, interp, st, res)
         for label, fn in enss:
